@@ -32,6 +32,11 @@ type headMeta struct {
 
 func (w *SWorld) subjective() *vk.H {
 	t := w.top()
+	// the Syncer's own notion of its head (hook): after a failed store write it can be ahead of what
+	// the store holds, and it is what Head() decides recency on
+	if sh := w.Sy.VerifSyncStoreHead(); sh > t {
+		t = sh
+	}
 	if t == 0 {
 		return nil
 	}
@@ -71,6 +76,14 @@ func c19Events(w *SWorld) []Ev {
 		if o.Kind == "getbyheight" {
 			return evs
 		}
+	}
+	if w.Cfg.HoldAppend != 0 {
+		// stalled-write configuration: small alphabet, explored deeper
+		if w.HS.Holding() {
+			evs = append(evs, Ev{K: "store", A: "fail"}, Ev{K: "store", A: "ok"})
+		}
+		evs = append(evs, Ev{K: "headcall"}, Ev{K: "deliver", A: "skip", D: 2})
+		return evs
 	}
 	evs = append(evs, Ev{K: "headcall"}, Ev{K: "deliver", A: "next"}, Ev{K: "advance", D: 40}, Ev{K: "advance", D: 4000})
 	return evs
@@ -312,8 +325,15 @@ func TestC19(t *testing.T) {
 		{N: 8, S: 3, NetHead: 3, Batch: 1, Hold: true, HeadAgeS: 100, FreshAfterS: true},
 	}
 	states, trans := 0, 0
+	// a write of the head the trusted peers reported stalls in the store while gossip moves on, and
+	// then fails: nothing a Head() caller has been told may be taken back
+	cfgs = append(cfgs, SCfg{N: 8, S: 3, NetHead: 3, Batch: 1, Hold: true, HeadAgeS: 100, FreshAfterS: true, HoldAppend: 4})
 	for _, cfg := range cfgs {
 		cfg := cfg
+		depth := depth
+		if cfg.HoldAppend != 0 {
+			depth += 2
+		}
 		r := vk.BFS(t, depth, vk.NumShards(), dl, func(t *testing.T, shard int, hist []Ev) vk.Step[Ev] {
 			run.AddEval(1)
 			return exec(t, cfg, hist)
